@@ -101,6 +101,9 @@ func (r *recorder) match(ev *proto.Event, nth int) *proto.Fault {
 			if f.Kind != ev.Kind {
 				continue
 			}
+			if (f.Phase == "load" && ev.Exec >= 0) || (f.Phase == "exec" && ev.Exec < 0) {
+				continue
+			}
 			if strings.HasPrefix(ev.Kind, "os.") || ev.Kind == "phase" {
 				if f.Path != ev.Path {
 					continue
@@ -207,8 +210,12 @@ func (r *recorder) osEvent(op, path string, n int) (int, error) {
 		ev.Off = r.offs[rel]
 	}
 	key := ev.Kind + "\x00" + rel
+	if ev.Exec >= 0 {
+		key = "x\x00" + key
+	}
 	nth := r.counts[key]
 	r.counts[key] = nth + 1
+	ev.Nth = nth
 	f := r.match(&ev, nth)
 	if f != nil {
 		ev.Fault = f.Do
